@@ -91,8 +91,15 @@ func (s *socket) send() {
 		p := s.readyQ[0]
 		s.readyQ = s.readyQ[1:]
 
-		// Schedule retransmission for the future.
+		// Schedule retransmission for the future.  A timer left over
+		// from the previous transmission (the request is being re-sent
+		// because its connection was lost) must not fire as well: the
+		// retry interval counts from this transmission.
 		c.lastPipe = p
+		if c.resendTimer != nil {
+			c.resendTimer.Stop()
+			c.resendTimer = nil
+		}
 		if c.resendTime > 0 {
 			id := c.reqID
 			c.resendTimer = time.AfterFunc(c.resendTime, func() {
